@@ -902,3 +902,641 @@ Proof.
     rewrite (nb_seen_self (b_thr s) k x t o Ho eq_refl).
     split; [exact Hok|]. split; [|exact HP]. fold k. rewrite updm_same. cbn; auto.
 Qed.
+
+Ltac incs H := rewrite H; reflexivity.
+
+Lemma holder_view s t p :
+  Inv s -> t_pc (b_thr s t) = p -> in_cs p = true -> sview_cs s p.
+Proof. intros HI <- H. apply (I_cs s HI t H). Qed.
+
+Lemma step_invoke s t o :
+  Inv s -> t_pc (b_thr s t) = PIdle -> op_ok o ->
+  Inv {| b_locked := b_locked s; b_insdel := b_insdel s; b_vins := b_vins s; b_perm := b_perm s;
+         b_keys := b_keys s; b_lvs := b_lvs s; bm := bm s;
+         b_thr := updf (b_thr s) t {| t_op := Some o; t_pc := PStable0; t_seen := [bm s (op_key o)] |} |}.
+Proof.
+  intros HI Hpc Hok.
+  eapply (inv_local_step s _ t {| t_op := Some o; t_pc := PStable0; t_seen := [bm s (op_key o)] |});
+    try reflexivity; try exact HI; cbn [b_thr t_pc].
+  - apply updf_same.
+  - intros t' Hne. apply updf_other. exact Hne.
+  - noncs Hpc.
+  - noncs Hpc.
+  - noncs Hpc.
+  - unfold TIs, TI. cbn. auto.
+Qed.
+
+Lemma step_return s t r :
+  Inv s -> t_pc (b_thr s t) = PDone r ->
+  Inv {| b_locked := b_locked s; b_insdel := b_insdel s; b_vins := b_vins s; b_perm := b_perm s;
+         b_keys := b_keys s; b_lvs := b_lvs s; bm := bm s;
+         b_thr := updf (b_thr s) t idle_thread |}.
+Proof.
+  intros HI Hpc.
+  eapply (inv_local_step s _ t idle_thread); try reflexivity; try exact HI; cbn [b_thr t_pc idle_thread].
+  - apply updf_same.
+  - intros t' Hne. apply updf_other. exact Hne.
+  - noncs Hpc.
+  - noncs Hpc.
+  - noncs Hpc.
+Qed.
+
+Lemma step_lock s t o v found :
+  Inv s -> t_op (b_thr s t) = Some o -> t_pc (b_thr s t) = PLock v found -> b_locked s = false ->
+  Inv (set_pc {| b_locked := true; b_insdel := b_insdel s; b_vins := b_vins s; b_perm := b_perm s;
+                 b_keys := b_keys s; b_lvs := b_lvs s; bm := bm s; b_thr := b_thr s |}
+              t (PValidate v found)).
+Proof.
+  intros HI Ho Hpc L. destruct (inv_thr_facts s t o HI Ho) as (Hok & Hin & HP).
+  rewrite Hpc in HP. cbn [TP] in HP.
+  eapply (inv_lock_step s _ t {| t_op := t_op (b_thr s t); t_pc := PValidate v found;
+                                 t_seen := t_seen (b_thr s t) |});
+    try reflexivity; try exact HI; try exact L; cbn [set_pc b_thr].
+  - apply updf_same.
+  - intros t' Hne. apply updf_other. exact Hne.
+  - unfold TIs, TI. cbn [t_op t_pc t_seen]. rewrite Ho. auto.
+Qed.
+
+Lemma step_validate s t o v found s' :
+  Inv s -> t_op (b_thr s t) = Some o -> t_pc (b_thr s t) = PValidate v found ->
+  (if negb (b_vins s =? v) then Some (set_pc s t PUnlockRetry)
+   else match found with
+        | None => Some (set_pc s t PInsDel)
+        | Some _ => Some (set_pc s t (PRelook v))
+        end) = Some s' ->
+  Inv s'.
+Proof.
+  intros HI Ho Hpc. destruct (inv_thr_facts s t o HI Ho) as (_ & _ & HP).
+  rewrite Hpc in HP. cbn [TP] in HP. destruct HP as [Hle HC].
+  destruct (holder_view s t _ HI Hpc eq_refl) as (_ & Hi & _). cbn [in_ins] in Hi.
+  destruct (N.eqb_spec (b_vins s) v) as [E|E]; cbn [negb];
+    [destruct found|]; intros H; injection H as <-;
+    apply (inv_set_pc s t o); auto; try (incs Hpc); cbn [TP]; auto.
+  apply HC. split; assumption.
+Qed.
+
+Lemma step_relook s t o v s' :
+  Inv s -> t_op (b_thr s t) = Some o -> t_pc (b_thr s t) = PRelook v ->
+  match find_rank (b_keys s) (b_perm s) (op_key o) 0 with
+  | None => match o with
+            | OpRem _ => Some (set_pc s t (PUnlockPlain RNotFound))
+            | _ => Some (set_pc s t PUnlockRetry)
+            end
+  | Some (r, sl) => match o with
+                    | OpRem _ => Some (set_pc s t (PClear sl r))
+                    | _ => Some (set_pc s t (POverwrite sl))
+                    end
+  end = Some s' ->
+  Inv s'.
+Proof.
+  intros HI Ho Hpc.
+  destruct (find_rank (b_keys s) (b_perm s) (op_key o) 0) as [[r sl]|] eqn:E.
+  - apply find_rank_some in E as (i & -> & Hi & Hn & Hk). cbn [Nat.add].
+    assert (Hsl : In sl (b_perm s)) by (rewrite <- Hn; apply nth_In; exact Hi).
+    destruct o; intros H; injection H as <-; apply (inv_set_pc s t _ _ HI Ho);
+      try (incs Hpc); try reflexivity; cbn [TP is_rem]; auto.
+  - rewrite find_rank_none in E.
+    pose proof (absent_none_seen s t o HI Ho E) as Hn.
+    destruct o; intros H; injection H as <-; apply (inv_set_pc s t _ _ HI Ho);
+      try (incs Hpc); try reflexivity; cbn [TP res_ok]; auto.
+Qed.
+
+Lemma step_unlock_retry s t o :
+  Inv s -> t_op (b_thr s t) = Some o -> t_pc (b_thr s t) = PUnlockRetry ->
+  Inv (set_pc {| b_locked := false; b_insdel := b_insdel s; b_vins := b_vins s; b_perm := b_perm s;
+                 b_keys := b_keys s; b_lvs := b_lvs s; bm := bm s; b_thr := b_thr s |} t PStable0).
+Proof.
+  intros HI Ho Hpc. pose proof (holder_view s t _ HI Hpc eq_refl) as V.
+  apply (inv_holder_plain s t o); auto; try (incs Hpc).
+  - lia.
+  - apply F_same.
+  - cbn [in_cs]. split; [reflexivity|]. eapply view_release; eauto. apply V.
+  - apply (I_sorted s HI).
+  - apply (I_rep s HI).
+  - exact I.
+Qed.
+
+Lemma step_unlock_plain s t o r :
+  Inv s -> t_op (b_thr s t) = Some o -> t_pc (b_thr s t) = PUnlockPlain r ->
+  Inv (set_pc {| b_locked := false; b_insdel := b_insdel s; b_vins := b_vins s; b_perm := b_perm s;
+                 b_keys := b_keys s; b_lvs := b_lvs s; bm := bm s; b_thr := b_thr s |} t (PDone r)).
+Proof.
+  intros HI Ho Hpc. pose proof (holder_view s t _ HI Hpc eq_refl) as V.
+  destruct (inv_thr_facts s t o HI Ho) as (_ & _ & HP). rewrite Hpc in HP. cbn [TP] in HP.
+  apply (inv_holder_plain s t o); auto; try (incs Hpc).
+  - lia.
+  - apply F_same.
+  - cbn [in_cs]. split; [reflexivity|]. eapply view_release; eauto. apply V.
+  - apply (I_sorted s HI).
+  - apply (I_rep s HI).
+Qed.
+
+Lemma step_unlock_ins s t o :
+  Inv s -> t_op (b_thr s t) = Some o -> t_pc (b_thr s t) = PUnlockIns ->
+  Inv (set_pc {| b_locked := false; b_insdel := false; b_vins := b_vins s + 1; b_perm := b_perm s;
+                 b_keys := b_keys s; b_lvs := b_lvs s; bm := bm s; b_thr := b_thr s |} t (PDone ROk)).
+Proof.
+  intros HI Ho Hpc. pose proof (holder_view s t _ HI Hpc eq_refl) as V.
+  destruct (inv_thr_facts s t o HI Ho) as (_ & _ & HP). rewrite Hpc in HP. cbn [TP] in HP.
+  apply (inv_holder_plain s t o); auto; try (incs Hpc).
+  - lia.
+  - intros v Hle E. lia.
+  - cbn [in_cs]. split; [reflexivity|]. eapply view_release; eauto.
+  - apply (I_sorted s HI).
+  - apply (I_rep s HI).
+Qed.
+
+Lemma insert_pos_ext pm ks ks' k r :
+  (forall a, In a pm -> ks' a = ks a) -> insert_pos pm ks k r -> insert_pos pm ks' k r.
+Proof.
+  intros He (H1 & H2 & H3). split; [exact H1|]. split.
+  - intros a Ha. rewrite He by (eapply in_firstn; eauto). auto.
+  - intros a Ha. rewrite He by (eapply in_skipn; eauto). auto.
+Qed.
+
+Lemma insert_pos_absent pm ks k r : insert_pos pm ks k r -> absent pm ks k.
+Proof.
+  intros (_ & H2 & H3) sl Hsl. rewrite <- (firstn_skipn r pm) in Hsl.
+  apply in_app_or in Hsl as [H|H]; [specialize (H2 _ H)|specialize (H3 _ H)]; lia.
+Qed.
+
+Lemma step_insdel s t o :
+  Inv s -> t_op (b_thr s t) = Some o -> t_pc (b_thr s t) = PInsDel ->
+  Nat.leb 15 (length (b_perm s)) = false ->
+  Inv (set_pc {| b_locked := b_locked s; b_insdel := true; b_vins := b_vins s; b_perm := b_perm s;
+                 b_keys := b_keys s; b_lvs := b_lvs s; bm := bm s; b_thr := b_thr s |}
+              t (PStoreKey (free_slot (b_perm s) 0 15) (rank_of (b_keys s) (b_perm s) (op_key o) 0))).
+Proof.
+  intros HI Ho Hpc Hlen. destruct (holder_view s t _ HI Hpc eq_refl) as (V1 & V2 & V3 & V4).
+  destruct (inv_thr_facts s t o HI Ho) as (_ & _ & HP). rewrite Hpc in HP. cbn [TP] in HP.
+  apply Nat.leb_gt in Hlen.
+  apply (inv_holder_plain s t o); auto; try (incs Hpc).
+  - lia.
+  - intros v _ _ H. discriminate H.
+  - cbn [in_cs]. unfold sview_cs.
+    cbn [set_pc b_locked b_insdel b_perm b_lvs in_ins]. repeat split; auto.
+  - apply (I_sorted s HI).
+  - apply (I_rep s HI).
+  - cbn [TP]. split.
+    + apply free_slot_free; [|exact Hlen]. eapply ksorted_NoDup. apply (I_sorted s HI).
+    + apply rank_of_spec; [apply (I_sorted s HI)|exact HP].
+Qed.
+
+Lemma step_storekey s t o sl r :
+  Inv s -> t_op (b_thr s t) = Some o -> t_pc (b_thr s t) = PStoreKey sl r ->
+  Inv (set_pc {| b_locked := b_locked s; b_insdel := b_insdel s; b_vins := b_vins s; b_perm := b_perm s;
+                 b_keys := updf (b_keys s) sl (op_key o); b_lvs := b_lvs s; bm := bm s;
+                 b_thr := b_thr s |} t (PStoreLv sl r)).
+Proof.
+  intros HI Ho Hpc. destruct (holder_view s t _ HI Hpc eq_refl) as (V1 & V2 & V3 & V4).
+  destruct (inv_thr_facts s t o HI Ho) as (_ & _ & HP). rewrite Hpc in HP. cbn [TP] in HP.
+  destruct HP as [Hnin Hpos]. cbn [in_ins] in V2.
+  assert (He : forall a, In a (b_perm s) -> updf (b_keys s) sl (op_key o) a = b_keys s a).
+  { intros a Ha. apply updf_other. intros ->. contradiction. }
+  apply (inv_holder_plain s t o); auto; try (incs Hpc).
+  - lia.
+  - intros v _ _ H. congruence.
+  - cbn [in_cs]. unfold sview_cs.
+    cbn [set_pc b_locked b_insdel b_perm b_lvs in_ins]. repeat split; auto.
+  - eapply ksorted_ext; [exact He|]. apply (I_sorted s HI).
+  - eapply RepP_ext; [exact He|reflexivity|]. apply (I_rep s HI).
+  - cbn [TP]. split; [exact Hnin|]. split; [eapply insert_pos_ext; eauto|]. apply updf_same.
+Qed.
+
+Lemma step_storelv s t o sl r v :
+  Inv s -> t_op (b_thr s t) = Some o -> t_pc (b_thr s t) = PStoreLv sl r ->
+  (o = OpPut (op_key o) v \/ o = OpUput (op_key o) v) ->
+  Inv (set_pc {| b_locked := b_locked s; b_insdel := b_insdel s; b_vins := b_vins s; b_perm := b_perm s;
+                 b_keys := b_keys s; b_lvs := updf (b_lvs s) sl v; bm := bm s; b_thr := b_thr s |}
+              t (PStorePerm sl r)).
+Proof.
+  intros HI Ho Hpc Hov. destruct (holder_view s t _ HI Hpc eq_refl) as (V1 & V2 & V3 & V4).
+  destruct (inv_thr_facts s t o HI Ho) as (_ & _ & HP). rewrite Hpc in HP. cbn [TP] in HP.
+  destruct HP as (Hnin & Hpos & Hk). cbn [in_ins] in V2.
+  assert (He : forall a, In a (b_perm s) -> updf (b_lvs s) sl v a = b_lvs s a).
+  { intros a Ha. apply updf_other. intros ->. contradiction. }
+  apply (inv_holder_plain s t o); auto; try (incs Hpc).
+  - lia.
+  - intros v0 _ _ H. congruence.
+  - cbn [in_cs]. unfold sview_cs.
+    cbn [set_pc b_locked b_insdel b_perm b_lvs in_ins]. repeat split; auto.
+    + intros a Ha. rewrite He by exact Ha. apply V3. exact Ha.
+    + intros a Ha Hz. destruct (Nat.eq_dec a sl) as [E|E]; [exact E|].
+      rewrite updf_other in Hz by exact E. exfalso. apply (V4 a Ha Hz).
+  - apply (I_sorted s HI).
+  - eapply RepP_ext; [reflexivity|exact He|]. apply (I_rep s HI).
+  - cbn [TP]. split; [exact Hnin|]. split; [exact Hpos|]. split; [exact Hk|].
+    destruct Hov as [->| ->]; apply updf_same.
+Qed.
+
+Lemma step_storeperm s t o sl r v :
+  Inv s -> t_op (b_thr s t) = Some o -> t_pc (b_thr s t) = PStorePerm sl r ->
+  (o = OpPut (op_key o) v \/ o = OpUput (op_key o) v) ->
+  Inv (set_pc {| b_locked := b_locked s; b_insdel := b_insdel s; b_vins := b_vins s;
+                 b_perm := insert_at r sl (b_perm s);
+                 b_keys := b_keys s; b_lvs := b_lvs s; bm := updm (bm s) (op_key o) (Some v);
+                 b_thr := note_binding (b_thr s) (op_key o) (Some v) |}
+              t PUnlockIns).
+Proof.
+  intros HI Ho Hpc Hov. destruct (holder_view s t _ HI Hpc eq_refl) as (V1 & V2 & V3 & V4).
+  destruct (inv_thr_facts s t o HI Ho) as (Hok & _ & HP). rewrite Hpc in HP. cbn [TP] in HP.
+  destruct HP as (Hnin & Hpos & Hk & Hlv). cbn [in_ins] in V2.
+  assert (Hv : b_lvs s sl = v /\ v <> 0).
+  { destruct Hov as [E|E]; rewrite E in Hlv, Hok; cbn in Hok; auto. }
+  destruct Hv as [Hv Hv0].
+  apply (inv_holder_nb s t o); auto; try (incs Hpc).
+  - lia.
+  - intros v0 _ _ H. congruence.
+  - cbn [in_cs]. unfold sview_cs.
+    cbn [set_pc b_locked b_insdel b_perm b_lvs in_ins]. repeat split; auto.
+    + intros a Ha Hz. apply in_insert_at in Ha as [->|Ha]; [congruence|]. apply (V3 a Ha Hz).
+    + intros a Ha Hz. apply Ha. apply in_insert_at. left.
+      apply V4; [|exact Hz]. intros Hin. apply Ha. apply in_insert_at. auto.
+  - destruct Hpos as (P1 & P2 & P3).
+    apply ksorted_insert_at; [apply (I_sorted s HI)| |]; rewrite Hk; assumption.
+  - rewrite <- Hv. apply RepP_insert; auto.
+    + apply (I_rep s HI).
+    + eapply insert_pos_absent; eauto.
+    + congruence.
+  - cbn [TP]. destruct Hov as [->| ->]; cbn [res_ok In]; auto.
+Qed.
+
+Lemma step_overwrite s t o sl v :
+  Inv s -> t_op (b_thr s t) = Some o -> t_pc (b_thr s t) = POverwrite sl ->
+  o = OpPut (op_key o) v ->
+  Inv (set_pc {| b_locked := b_locked s; b_insdel := b_insdel s; b_vins := b_vins s; b_perm := b_perm s;
+                 b_keys := b_keys s; b_lvs := updf (b_lvs s) sl v; bm := updm (bm s) (op_key o) (Some v);
+                 b_thr := note_binding (b_thr s) (op_key o) (Some v) |}
+              t (PUnlockPlain ROk)).
+Proof.
+  intros HI Ho Hpc Hov. destruct (holder_view s t _ HI Hpc eq_refl) as (V1 & V2 & V3 & V4).
+  destruct (inv_thr_facts s t o HI Ho) as (Hok & _ & HP). rewrite Hpc in HP. cbn [TP] in HP.
+  destruct HP as (Hsl & Hk). cbn [in_ins] in V2.
+  assert (Hv0 : v <> 0) by (rewrite Hov in Hok; exact Hok).
+  apply (inv_holder_nb s t o); auto; try (incs Hpc).
+  - lia.
+  - apply F_same.
+  - cbn [in_cs]. unfold sview_cs.
+    cbn [set_pc b_locked b_insdel b_perm b_lvs in_ins]. repeat split; auto.
+    + intros a Ha Hz. destruct (Nat.eq_dec a sl) as [->|E].
+      * rewrite updf_same in Hz. contradiction.
+      * rewrite updf_other in Hz by exact E. apply (V3 a Ha Hz).
+    + intros a Ha Hz. rewrite updf_other in Hz by (intros ->; contradiction). apply (V4 a Ha Hz).
+  - apply (I_sorted s HI).
+  - pose proof (RepP_store _ _ _ _ (op_key o) sl v (I_rep s HI) (I_sorted s HI) Hsl Hk) as R.
+    destruct (N.eqb_spec v 0); [contradiction|exact R].
+  - cbn [TP]. rewrite Hov. cbn [res_ok In]. auto.
+Qed.
+
+Lemma step_clear s t o sl rk :
+  Inv s -> t_op (b_thr s t) = Some o -> t_pc (b_thr s t) = PClear sl rk ->
+  Inv (set_pc {| b_locked := b_locked s; b_insdel := b_insdel s; b_vins := b_vins s; b_perm := b_perm s;
+                 b_keys := b_keys s; b_lvs := updf (b_lvs s) sl 0; bm := updm (bm s) (op_key o) None;
+                 b_thr := note_binding (b_thr s) (op_key o) None |}
+              t (PShrink rk)).
+Proof.
+  intros HI Ho Hpc. destruct (holder_view s t _ HI Hpc eq_refl) as (V1 & V2 & V3 & V4).
+  destruct (inv_thr_facts s t o HI Ho) as (Hok & _ & HP). rewrite Hpc in HP. cbn [TP] in HP.
+  destruct HP as (Hrem & Hrk & Hn & Hk). cbn [in_ins] in V2.
+  assert (Hsl : In sl (b_perm s)) by (rewrite <- Hn; apply nth_In; exact Hrk).
+  apply (inv_holder_nb s t o); auto; try (incs Hpc).
+  - lia.
+  - apply F_same.
+  - cbn [in_cs]. unfold sview_cs.
+    cbn [set_pc b_locked b_insdel b_perm b_lvs in_ins]. repeat split; auto.
+    + intros a Ha Hz. destruct (Nat.eq_dec a sl) as [->|E]; [symmetry; exact Hn|].
+      rewrite updf_other in Hz by exact E. exfalso. apply (V3 a Ha Hz).
+    + intros a Ha Hz. rewrite updf_other in Hz by (intros ->; contradiction). apply (V4 a Ha Hz).
+  - apply (I_sorted s HI).
+  - apply (RepP_store _ _ _ _ (op_key o) sl 0 (I_rep s HI) (I_sorted s HI) Hsl Hk).
+  - cbn [TP In]. rewrite Hn, updf_same. repeat split; auto.
+Qed.
+
+Lemma step_shrink s t o rk :
+  Inv s -> t_op (b_thr s t) = Some o -> t_pc (b_thr s t) = PShrink rk ->
+  Inv (set_pc {| b_locked := b_locked s; b_insdel := b_insdel s; b_vins := b_vins s;
+                 b_perm := remove_at rk (b_perm s);
+                 b_keys := b_keys s; b_lvs := b_lvs s; bm := bm s; b_thr := b_thr s |}
+              t (PUnlockPlain ROk)).
+Proof.
+  intros HI Ho Hpc. destruct (holder_view s t _ HI Hpc eq_refl) as (V1 & V2 & V3 & V4).
+  destruct (inv_thr_facts s t o HI Ho) as (Hok & _ & HP). rewrite Hpc in HP. cbn [TP] in HP.
+  destruct HP as (Hrem & Hrk & Hk & Hz & Hnone). cbn [in_ins] in V2.
+  apply (inv_holder_plain s t o); auto; try (incs Hpc).
+  - lia.
+  - intros v _ E1 E2. repeat split; auto. intros a. apply in_remove_at_incl.
+  - cbn [in_cs]. unfold sview_cs.
+    cbn [set_pc b_locked b_insdel b_perm b_lvs in_ins]. repeat split; auto.
+    + intros a Ha Hza. pose proof (V3 a (in_remove_at_incl _ _ _ Ha) Hza) as E. subst a.
+      eapply ksorted_nth_not_in_remove; eauto. apply (I_sorted s HI).
+    + intros a Ha Hza. destruct (in_dec Nat.eq_dec a (b_perm s)) as [Hin|Hin].
+      * apply (in_remove_at 0%nat rk a _ Hrk) in Hin as [->|Hin]; [congruence|contradiction].
+      * apply (V4 a Hin Hza).
+  - apply ksorted_remove_at; [exact Hrk|apply (I_sorted s HI)].
+  - apply RepP_shrink; auto. apply (I_rep s HI).
+  - cbn [TP]. destruct o; try contradiction. exact Hnone.
+Qed.
+
+(** ** Every event preserves the invariant *)
+
+Theorem inv_step s e s' : Inv s -> bstep true s e = Some s' -> Inv s'.
+Proof.
+  intros HI. destruct e as [t o|t|t]; cbn [bstep].
+  - (* invoke *)
+    destruct (t_pc (b_thr s t)) eqn:Hpc; try discriminate.
+    destruct o as [k|k v|k v|k]; cbn [op_key].
+    + intros H; injection H as <-. apply step_invoke; auto. exact I.
+    + destruct (N.eqb_spec v 0) as [E|E]; cbn [negb]; [discriminate|].
+      intros H; injection H as <-. apply (step_invoke s t (OpPut k v)); auto.
+    + destruct (N.eqb_spec v 0) as [E|E]; cbn [negb]; [discriminate|].
+      intros H; injection H as <-. apply (step_invoke s t (OpUput k v)); auto.
+    + intros H; injection H as <-. apply step_invoke; auto. exact I.
+  - (* step *)
+    destruct (t_op (b_thr s t)) as [o|] eqn:Ho; [|discriminate].
+    destruct (t_pc (b_thr s t)) eqn:Hpc; try discriminate.
+    + (* PStable0 *)
+      destruct (stable s) eqn:St; intros H; injection H as <-; [|exact HI].
+      apply stable_true in St as [L _]. apply (step_to_perm s t o); auto. noncs Hpc.
+    + (* PPerm *) intros H; injection H as <-. eapply step_perm; eauto.
+    + (* PSearch *)
+      destruct rest as [|sl rest].
+      * intros H; injection H as <-. eapply step_search_nil; eauto.
+      * eapply step_search_cons; eauto.
+    + (* PCheck1 *)
+      destruct (negb (stable s)) eqn:St; [intros H; injection H as <-; exact HI|].
+      apply stable_false in St as [L Hi].
+      destruct (N.eqb_spec (b_vins s) v) as [E|E]; cbn [negb].
+      * eapply step_check1_pass; eauto.
+      * intros H; injection H as <-. apply (step_to_perm s t o); auto. noncs Hpc.
+    + (* PLoadLv *) intros H; injection H as <-. eapply step_loadlv; eauto.
+    + (* PFinal *)
+      destruct (negb (stable s)) eqn:St; [intros H; injection H as <-; exact HI|].
+      apply stable_false in St as [L Hi].
+      destruct (N.eqb_spec (b_vins s) v) as [E|E]; cbn [negb].
+      * cbn [andb]. destruct (N.eqb_spec w 0) as [W|W]; intros H; injection H as <-.
+        -- apply (step_to_stable0 s t o); auto. noncs Hpc.
+        -- eapply step_final_pass; eauto.
+      * intros H; injection H as <-. apply (step_to_stable0 s t o); auto. noncs Hpc.
+    + (* PRemFinal *)
+      destruct (negb (stable s)) eqn:St; [intros H; injection H as <-; exact HI|].
+      apply stable_false in St as [L Hi].
+      destruct (N.eqb_spec (b_vins s) v) as [E|E]; cbn [negb]; intros H; injection H as <-.
+      * eapply step_remfinal_pass; eauto.
+      * apply (step_to_stable0 s t o); auto. noncs Hpc.
+    + (* PLock *)
+      destruct (b_locked s) eqn:L; intros H; injection H as <-; [exact HI|].
+      eapply step_lock; eauto.
+    + (* PValidate *) eapply step_validate; eauto.
+    + (* PUnlockRetry *) intros H; injection H as <-. eapply step_unlock_retry; eauto.
+    + (* PRelook *) eapply step_relook; eauto.
+    + (* PInsDel *)
+      destruct (Nat.leb 15 (length (b_perm s))) eqn:Hlen; [discriminate|].
+      intros H; injection H as <-. eapply step_insdel; eauto.
+    + (* PStoreKey *) intros H; injection H as <-. eapply step_storekey; eauto.
+    + (* PStoreLv *)
+      destruct o as [k|k v|k v|k]; try discriminate; intros H; injection H as <-;
+        eapply step_storelv; eauto.
+    + (* PStorePerm *)
+      destruct o as [k|k v|k v|k]; try discriminate; intros H; injection H as <-.
+      * apply (step_storeperm s t (OpPut k v)); auto.
+      * apply (step_storeperm s t (OpUput k v)); auto.
+    + (* PUnlockIns *) intros H; injection H as <-. eapply step_unlock_ins; eauto.
+    + (* POverwrite *)
+      destruct o as [k|k v|k v|k]; try discriminate; intros H; injection H as <-.
+      apply (step_overwrite s t (OpPut k v)); auto.
+    + (* PClear *) intros H; injection H as <-. eapply step_clear; eauto.
+    + (* PShrink *) intros H; injection H as <-. eapply step_shrink; eauto.
+    + (* PUnlockPlain *) intros H; injection H as <-. eapply step_unlock_plain; eauto.
+  - (* return *)
+    destruct (t_pc (b_thr s t)) eqn:Hpc; try discriminate.
+    intros H; injection H as <-. eapply step_return; eauto.
+Qed.
+
+Theorem inv_run tr : forall s s', Inv s -> brun true s tr = Some s' -> Inv s'.
+Proof.
+  induction tr as [|e tr IH]; intros s s' HI; cbn [brun].
+  - intros H; injection H as <-. exact HI.
+  - destruct (bstep true s e) as [s1|] eqn:E; [|discriminate].
+    apply IH. eapply inv_step; eauto.
+Qed.
+
+Corollary inv_reachable tr s : brun true binit tr = Some s -> Inv s.
+Proof. apply inv_run. exact inv_init. Qed.
+
+(** ** The properties *)
+
+Lemma ksorted_nth ks l i j :
+  ksorted ks l -> (i < j < length l)%nat -> ks (nth i l 0%nat) < ks (nth j l 0%nat).
+Proof.
+  revert i j. induction l as [|a l IH]; intros i j Hs Hij; cbn [length] in Hij; [lia|].
+  destruct Hs as [H1 H2]. destruct j as [|j]; [lia|]. destruct i as [|i]; cbn [nth].
+  - apply H1. apply nth_In. lia.
+  - apply IH; [exact H2|lia].
+Qed.
+
+(** the node represents the map in every reachable state; a cleared word of a
+    slot in the permutation (a remove between its two stores) is "unbound" *)
+Lemma rep_find_rank s k :
+  Inv s ->
+  bm s k = match find_rank (b_keys s) (b_perm s) k 0 with
+           | Some (_, sl) => if b_lvs s sl =? 0 then None else Some (b_lvs s sl)
+           | None => None
+           end.
+Proof.
+  intros HI. destruct (I_rep s HI k) as [R1 R2].
+  destruct (find_rank (b_keys s) (b_perm s) k 0) as [[rk sl]|] eqn:E.
+  - apply find_rank_some in E as (i & _ & Hi & Hn & Hk). apply R1; [|exact Hk].
+    rewrite <- Hn. apply nth_In. exact Hi.
+  - apply R2. rewrite find_rank_none in E. exact E.
+Qed.
+
+(** (G) *)
+Theorem border_get_interval tr s t k r :
+  brun true binit tr = Some s ->
+  t_op (b_thr s t) = Some (OpGet k) -> t_pc (b_thr s t) = PDone r ->
+  (exists w, r = ROkVal w /\ w <> 0 /\ In (Some w) (t_seen (b_thr s t))) \/
+  (r = RNotExist /\ In None (t_seen (b_thr s t))).
+Proof.
+  intros Hrun Ho Hpc. pose proof (inv_reachable tr s Hrun) as HI.
+  destruct (inv_thr_facts s t _ HI Ho) as (_ & _ & HP). rewrite Hpc in HP. cbn [TP res_ok] in HP.
+  destruct r; try contradiction.
+  - left. exists v. destruct HP. auto.
+  - right. auto.
+Qed.
+
+(** the ghost list of an in-flight operation always contains the current
+    binding of its key (so "in [t_seen]" = "was the binding at some instant
+    between invocation and now") *)
+Theorem border_seen_current tr s t o :
+  brun true binit tr = Some s -> t_op (b_thr s t) = Some o ->
+  In (bm s (op_key o)) (t_seen (b_thr s t)).
+Proof.
+  intros Hrun Ho. pose proof (inv_reachable tr s Hrun) as HI.
+  apply (inv_thr_facts s t o HI Ho).
+Qed.
+
+(** (R) + (U) *)
+Theorem border_writers_atomic tr s t :
+  brun true binit tr = Some s ->
+  let th := b_thr s t in
+  (* results *)
+  (forall k r, t_op th = Some (OpRem k) -> t_pc th = PDone r ->
+     (r = ROk \/ r = RNotFound) /\ In None (t_seen th)) /\
+  (forall k v r, t_op th = Some (OpPut k v) -> t_pc th = PDone r ->
+     r = ROk /\ In (Some v) (t_seen th)) /\
+  (forall k v r, t_op th = Some (OpUput k v) -> t_pc th = PDone r ->
+     (r = ROk /\ In (Some v) (t_seen th)) \/ (r = RUnique /\ exists w, In (Some w) (t_seen th))) /\
+  (* the linearization steps are taken under the lock and do what the result says *)
+  (forall sl rk, t_pc th = PClear sl rk ->
+     exists k, t_op th = Some (OpRem k) /\ b_locked s = true /\
+               bm s k = Some (b_lvs s sl) /\ b_lvs s sl <> 0) /\
+  (forall sl, t_pc th = POverwrite sl ->
+     exists o, t_op th = Some o /\ b_locked s = true /\
+               bm s (op_key o) = Some (b_lvs s sl) /\ b_lvs s sl <> 0) /\
+  (forall sl r, t_pc th = PStorePerm sl r ->
+     exists o, t_op th = Some o /\ b_locked s = true /\ bm s (op_key o) = None).
+Proof.
+  intros Hrun th. pose proof (inv_reachable tr s Hrun) as HI. unfold th.
+  assert (Hop : forall p, t_pc (b_thr s t) = p -> p <> PIdle -> exists o, t_op (b_thr s t) = Some o).
+  { intros p Hp Hne. pose proof (I_thr s HI t) as H. unfold TIs, TI in H.
+    destruct (t_op (b_thr s t)) as [o|]; [eauto|congruence]. }
+  split; [|split; [|split; [|split; [|split]]]].
+  - intros k r Ho Hpc.
+    destruct (inv_thr_facts s t _ HI Ho) as (_ & _ & HP). rewrite Hpc in HP. cbn [TP res_ok] in HP.
+    destruct r; try contradiction; auto.
+  - intros k v r Ho Hpc.
+    destruct (inv_thr_facts s t _ HI Ho) as (_ & _ & HP). rewrite Hpc in HP. cbn [TP res_ok] in HP.
+    destruct r; try contradiction; auto.
+  - intros k v r Ho Hpc.
+    destruct (inv_thr_facts s t _ HI Ho) as (_ & _ & HP). rewrite Hpc in HP. cbn [TP res_ok] in HP.
+    destruct r; try contradiction; auto.
+  - intros sl rk Hpc. destruct (Hop _ Hpc) as [o Ho]; [discriminate|].
+    destruct (inv_thr_facts s t o HI Ho) as (_ & _ & HP). rewrite Hpc in HP. cbn [TP] in HP.
+    destruct HP as (Hrem & Hrk & Hn & Hk). destruct o as [|k0 v0|k0 v0|k]; try contradiction. cbn [op_key] in Hk.
+    destruct (holder_view s t _ HI Hpc eq_refl) as (V1 & _ & V3 & _).
+    assert (Hsl : In sl (b_perm s)) by (rewrite <- Hn; apply nth_In; exact Hrk).
+    assert (Hz : b_lvs s sl <> 0) by (intros Hz; apply (V3 sl Hsl Hz)).
+    exists k. repeat split; auto.
+    destruct (I_rep s HI k) as [R1 _]. rewrite (R1 sl Hsl Hk).
+    destruct (N.eqb_spec (b_lvs s sl) 0); [contradiction|reflexivity].
+  - intros sl Hpc. destruct (Hop _ Hpc) as [o Ho]; [discriminate|].
+    destruct (inv_thr_facts s t o HI Ho) as (_ & _ & HP). rewrite Hpc in HP. cbn [TP] in HP.
+    destruct HP as (Hsl & Hk).
+    destruct (holder_view s t _ HI Hpc eq_refl) as (V1 & _ & V3 & _).
+    assert (Hz : b_lvs s sl <> 0) by (intros Hz; apply (V3 sl Hsl Hz)).
+    exists o. repeat split; auto.
+    destruct (I_rep s HI (op_key o)) as [R1 _]. rewrite (R1 sl Hsl Hk).
+    destruct (N.eqb_spec (b_lvs s sl) 0); [contradiction|reflexivity].
+  - intros sl r Hpc. destruct (Hop _ Hpc) as [o Ho]; [discriminate|].
+    destruct (inv_thr_facts s t o HI Ho) as (_ & _ & HP). rewrite Hpc in HP. cbn [TP] in HP.
+    destruct HP as (Hnin & Hpos & Hk & _).
+    destruct (holder_view s t _ HI Hpc eq_refl) as (V1 & _).
+    exists o. repeat split; auto.
+    destruct (I_rep s HI (op_key o)) as [_ R2]. apply R2. eapply insert_pos_absent; eauto.
+Qed.
+
+(** (M) *)
+Theorem border_lock_and_representation tr s :
+  brun true binit tr = Some s ->
+  (* the lock bit is a mutex *)
+  (b_locked s = true <->
+   exists t, in_cs (t_pc (b_thr s t)) = true /\
+             forall t', in_cs (t_pc (b_thr s t')) = true -> t' = t) /\
+  (* free lock: the node represents the map *)
+  (b_locked s = false ->
+     NoDup (b_perm s) /\
+     (forall i j, (i < j < length (b_perm s))%nat ->
+        b_keys s (nth i (b_perm s) 0%nat) < b_keys s (nth j (b_perm s) 0%nat)) /\
+     (forall sl, In sl (b_perm s) -> b_lvs s sl <> 0) /\
+     (forall k, bm s k = match find_rank (b_keys s) (b_perm s) k 0 with
+                         | Some (_, sl) => Some (b_lvs s sl)
+                         | None => None
+                         end) /\
+     b_insdel s = false) /\
+  (* the dirty bit is set exactly while the holder is in the store phase of an insert *)
+  (forall t, in_cs (t_pc (b_thr s t)) = true -> b_insdel s = in_ins (t_pc (b_thr s t))) /\
+  (* in every state (locked or not): sorted, and the map is represented up to
+     the one cleared word of a remove in progress *)
+  NoDup (b_perm s) /\
+  (forall k, bm s k = match find_rank (b_keys s) (b_perm s) k 0 with
+                      | Some (_, sl) => if b_lvs s sl =? 0 then None else Some (b_lvs s sl)
+                      | None => None
+                      end).
+Proof.
+  intros Hrun. pose proof (inv_reachable tr s Hrun) as HI.
+  assert (Hnd : NoDup (b_perm s)) by (eapply ksorted_NoDup; apply (I_sorted s HI)).
+  split; [|split; [|split; [|split]]].
+  - split.
+    + intros L. destruct (I_holder s HI L) as [t Ht]. exists t. split; [exact Ht|].
+      intros t' Ht'. eapply I_uniq; eauto.
+    + intros (t & Ht & _). apply (I_cs s HI t Ht).
+  - intros L. destruct (I_free s HI L) as (F1 & F2 & F3).
+    split; [exact Hnd|]. split; [|split; [exact F2|split; [|exact F1]]].
+    + intros i j Hij. apply ksorted_nth; [apply (I_sorted s HI)|exact Hij].
+    + intros k. rewrite (rep_find_rank s k HI).
+      destruct (find_rank (b_keys s) (b_perm s) k 0) as [[rk sl]|] eqn:E; [|reflexivity].
+      apply find_rank_some in E as (i & _ & Hi & Hn & Hk).
+      assert (Hsl : In sl (b_perm s)) by (rewrite <- Hn; apply nth_In; exact Hi).
+      specialize (F2 sl Hsl). destruct (N.eqb_spec (b_lvs s sl) 0); [contradiction|reflexivity].
+  - intros t Ht. apply (I_cs s HI t Ht).
+  - exact Hnd.
+  - intros k. apply rep_find_rank. exact HI.
+Qed.
+
+(** (X): the pinned reader returns OK with the cleared word, which was never
+    a binding of the key *)
+Definition refuting_trace : list bev :=
+  [BInvoke 0 (OpPut 5 7)] ++ repeat (BStep 0) 11 ++ [BReturn 0] ++
+  [BInvoke 1 (OpGet 5); BInvoke 2 (OpRem 5)] ++ repeat (BStep 1) 4 ++ repeat (BStep 2) 7 ++
+  [BStep 2] ++ [BStep 1] ++ repeat (BStep 2) 2 ++ [BStep 1].
+
+Theorem original_reader_refuted :
+  exists tr s t, brun false binit tr = Some s /\
+    t_op (b_thr s t) = Some (OpGet 5) /\ t_pc (b_thr s t) = PDone (ROkVal 0) /\
+    ~ In (Some 0) (t_seen (b_thr s t)).
+Proof.
+  exists refuting_trace.
+  exists (match brun false binit refuting_trace with Some s => s | None => binit end).
+  exists 1%nat. split; [vm_compute; reflexivity|].
+  split; [vm_compute; reflexivity|]. split; [vm_compute; reflexivity|].
+  vm_compute. intros [H|[H|[]]]; discriminate H.
+Qed.
+
+(** the repaired reader on the same schedule goes back to the start *)
+Example fixed_reader_retries :
+  match brun true binit refuting_trace with
+  | Some s => t_pc (b_thr s 1%nat) = PStable0
+  | None => False
+  end.
+Proof. vm_compute. reflexivity. Qed.
+
+(** ** The ghost list only grows while the operation is in flight *)
+
+Lemma set_pc_seen s t' p t : t_seen (b_thr (set_pc s t' p) t) = t_seen (b_thr s t).
+Proof. cbn [set_pc b_thr]. unfold updf. destruct (Nat.eqb_spec t t') as [->|]; reflexivity. Qed.
+
+Lemma nb_seen_grows thr k x t : exists l, t_seen (note_binding thr k x t) = l ++ t_seen (thr t).
+Proof.
+  unfold note_binding. destruct (t_op (thr t)) as [o|]; [destruct (op_key o =? k)|];
+    cbn [t_seen]; [exists [x]|exists []|exists []]; reflexivity.
+Qed.
+
+Theorem seen_grows fixed s e s' t :
+  bstep fixed s e = Some s' ->
+  (forall o, e <> BInvoke t o) -> e <> BReturn t ->
+  exists l, t_seen (b_thr s' t) = l ++ t_seen (b_thr s t).
+Proof.
+  intros H Hinv Hret. destruct e as [t' o|t'|t']; cbn [bstep] in H.
+  - destruct (t_pc (b_thr s t')); try discriminate H.
+    destruct (match o with OpPut _ v | OpUput _ v => negb (v =? 0) | _ => true end); try discriminate H.
+    injection H as <-. cbn [b_thr]. unfold updf.
+    destruct (Nat.eqb_spec t t') as [->|]; [exfalso; eapply Hinv; reflexivity|exists []; reflexivity].
+  - repeat match type of H with
+           | context [match ?x with _ => _ end] => destruct x; try discriminate H
+           end;
+      injection H as <-; rewrite ?set_pc_seen; cbn [b_thr];
+      first [exists []; reflexivity | apply nb_seen_grows].
+  - destruct (t_pc (b_thr s t')); try discriminate H.
+    injection H as <-. cbn [b_thr]. unfold updf.
+    destruct (Nat.eqb_spec t t') as [->|]; [exfalso; apply Hret; reflexivity|exists []; reflexivity].
+Qed.
